@@ -644,6 +644,13 @@ func runSteps(run *core.Run, bin string, tasks []stepTask, procs int) []stepResu
 	var mu sync.Mutex
 	var results []stepResult
 	var wg sync.WaitGroup
+	// the instrumented children write their counter files here when they exit: removed with the run
+	covDir, cerr := os.MkdirTemp("", "vcov-")
+	if cerr != nil {
+		covDir = os.TempDir()
+	} else {
+		defer os.RemoveAll(covDir)
+	}
 	for p := 0; p < procs; p++ {
 		wg.Add(1)
 		go func(ts []stepTask) {
@@ -652,7 +659,7 @@ func runSteps(run *core.Run, bin string, tasks []stepTask, procs int) []stepResu
 				b, _ := json.Marshal(ts)
 				cmd := exec.Command(bin, "-worker", "steps")
 				cmd.Stdin = bytes.NewReader(b)
-				cmd.Env = append(os.Environ(), "GOMAXPROCS=2", "GOMEMLIMIT=3GiB", "GOCOVERDIR="+os.TempDir())
+				cmd.Env = append(os.Environ(), "GOMAXPROCS=2", "GOMEMLIMIT=3GiB", "GOCOVERDIR="+covDir)
 				var stdout bytes.Buffer
 				cmd.Stdout = &stdout
 				cmd.Start()
